@@ -140,20 +140,25 @@ class TU:
                     out.append('?')
         return out
 
-    def _walk(self, n, scope, rec):
+    def _walk(self, n, scope, rec, dep=False):
         k = n.get('kind')
         nid = n.get('id')
         name = n.get('name')
         if k == 'NamespaceDecl':
             sc = scope + (name or '(anon)') + '::'
             for c in n.get('inner', ()):
-                self._walk(c, sc, None)
+                self._walk(c, sc, None, dep)
             return
         if k in ('ClassTemplateDecl', 'FunctionTemplateDecl'):
             for c in n.get('inner', ()):
-                if c.get('kind') in ('CXXRecordDecl', 'ClassTemplateSpecializationDecl', 'FunctionDecl',
-                                     'CXXMethodDecl', 'CXXConstructorDecl', 'CXXConversionDecl'):
-                    self._walk(c, scope, rec)
+                ck = c.get('kind')
+                if ck == 'CXXRecordDecl':
+                    self._walk(c, scope, rec, True)
+                elif ck == 'ClassTemplateSpecializationDecl':
+                    self._walk(c, scope, rec, dep)
+                elif ck in ('FunctionDecl', 'CXXMethodDecl', 'CXXConstructorDecl', 'CXXConversionDecl'):
+                    isdep = dep or not any(x.get('kind') == 'TemplateArgument' for x in c.get('inner', ()))
+                    self._walk(c, scope, rec, isdep)
             return
         if k in ('CXXRecordDecl', 'ClassTemplateSpecializationDecl'):
             nm = name or '(anon)'
@@ -165,10 +170,10 @@ class TU:
                 self.qual[nid] = q
             if n.get('completeDefinition') or any(c.get('kind') in ('FieldDecl', 'CXXMethodDecl')
                                                   for c in n.get('inner', ())):
-                if k == 'ClassTemplateSpecializationDecl' or not self._is_dependent_record(n):
+                if not dep:
                     self.records.setdefault(q, n)
             for c in n.get('inner', ()):
-                self._walk(c, q + '::', n)
+                self._walk(c, q + '::', n, dep)
             return
         if k in ('FunctionDecl', 'CXXMethodDecl', 'CXXConstructorDecl', 'CXXConversionDecl', 'CXXDestructorDecl'):
             pid = n.get('parentDeclContextId')
@@ -185,7 +190,8 @@ class TU:
                     self.parent[nid] = rec
                 n['_qual'] = q
                 n['_targs'] = targs
-            if any(c.get('kind') in ('CompoundStmt',) for c in n.get('inner', ())):
+            n['_dependent'] = dep
+            if not dep and any(c.get('kind') in ('CompoundStmt',) for c in n.get('inner', ())):
                 self.funcs.setdefault(q, []).append(n)
             # out-of-line definitions carry parentDeclContextId
             return
@@ -205,11 +211,13 @@ class TU:
         # primary templates: fields of dependent type; we only use specializations for templates
         return False
 
-    def find_funcs(self, qualname, sig=None, targs=None):
+    def find_funcs(self, qualname, sig=None, targs=None, sig_not=None):
         out = []
         for f in self.funcs.get(qualname, ()):
             t = f.get('type', {}).get('qualType', '')
-            if sig is not None and sig not in t:
+            sg = (sig,) if isinstance(sig, str) else tuple(sig or ())
+            sn = (sig_not,) if isinstance(sig_not, str) else tuple(sig_not or ())
+            if not all(x in t for x in sg) or any(x in t for x in sn):
                 continue
             if targs is not None and list(targs) != f.get('_targs'):
                 continue
